@@ -16,13 +16,13 @@ def run(ctx):
         "Groth16 verification is used as an oracle for 'still accepted' on real proofs",
     ]
     # design level: every byte-length vector over the classes, both phases; left-alignment mutant must be refuted
-    ctx.tlc("ProofCodec", cfg([32, 31, 1] if ctx.quick else [32, 31, 30, 1, 0]), label="ProofCodec mc", timeout=900)
+    ctx.tlc("ProofCodec", cfg([32, 31, 1, 33] if ctx.quick else [32, 31, 30, 1, 0, 33]), label="ProofCodec mc", timeout=900)
     ctx.expect_mutant_violates("ProofCodec", cfg([32, 31], align="left"), "ProofCodec mutant Align=left")
     # behaviours for replay: all short/full vectors
-    r = ctx.tlc("ProofCodec", cfg([32, 31], export=True), label="ProofCodec gen")
+    r = ctx.tlc("ProofCodec", cfg([32, 31, 33], export=True), label="ProofCodec gen (short / full / top-of-field classes)", timeout=900)
     vectors = r["traces"]
-    if len(vectors) != 256:
-        raise Infra("expected 256 vectors, got %d" % len(vectors))
+    if len(vectors) != 6561:
+        raise Infra("expected 6561 vectors, got %d" % len(vectors))
     nreal = 16 if ctx.quick else 300
     res = ctx.run_vh(["c10"], dict(vectors=vectors, real=nreal, mode="deletion", depth=1, batch=1), timeout=3000)
     realized = 0
